@@ -9,6 +9,52 @@ HEADER = ls.HEADER_MON
 from lockstep import RK, coq_pkt, responses, grammar_terms
 
 
+def big_prepare_probe(ctx):
+    """COM_STMT_PREPARE whose placeholder count sits on both sides of the 2-byte field of the prepare-OK (65535 / 65536 /
+    70000), followed by a PING: what the prepare-OK announces must be what follows it (or the command gets ONE ERR), and the
+    PING's OK must be the next packet with sequence id 1."""
+    import struct
+    import client as cl
+    import impl
+    for depeof in (False, True):
+        for n in ((300, 65535, 65536, 70000) if not ctx.quick else (65535, 65536, 70000)):
+            env = impl.Env(own_sleep=False)
+            try:
+                srv = impl.make_server(env, lambda: impl.ScriptSession(env, 0))
+                c = impl.Conn(env, srv)
+                env.settle(); c.take()
+                caps = cl.BASE_CAPS | (cl.CLIENT_DEPRECATE_EOF if depeof else 0)
+                c.feed(cl.frame(cl.handshake_response(user=b"u", caps=caps), 1)); c.take()
+                sql = b"SELECT " + b",".join([b"?"] * n)
+                c.feed(cl.frame(bytes([cl.COM_STMT_PREPARE]) + sql, 0))
+                c.feed(cl.frame(bytes([cl.COM_PING]), 0))
+                pk = cl.split_stream(c.take())
+                ctx.evals += 1
+                if not pk:
+                    return dict(kind="big-prepare", placeholders=n, deprecate_eof=depeof, problem="no response at all")
+                i = 0
+                if pk[0][1][:1] == b"\xff":
+                    i = 1
+                elif pk[0][1][:1] == b"\x00" and len(pk[0][1]) >= 12:
+                    ncols, nparams = struct.unpack("<HH", pk[0][1][5:9])
+                    i = 1 + nparams + (1 if (nparams and not depeof) else 0) + ncols + (1 if (ncols and not depeof) else 0)
+                    if nparams != n:
+                        return dict(kind="big-prepare", placeholders=n, deprecate_eof=depeof, problem=f"prepare-OK announces {nparams} parameters for {n} placeholders")
+                    seqs = [q for q, _ in pk[:i]]
+                    if seqs != [(1 + j) % 256 for j in range(len(seqs))]:
+                        return dict(kind="big-prepare", placeholders=n, deprecate_eof=depeof, problem="sequence ids of the prepare response are not consecutive from 1")
+                else:
+                    return dict(kind="big-prepare", placeholders=n, deprecate_eof=depeof, problem="first packet is neither prepare-OK nor ERR", first=pk[0][1][:12].hex())
+                rest = pk[i:]
+                if len(rest) != 1 or rest[0][0] != 1 or rest[0][1][:1] != b"\x00":
+                    return dict(kind="big-prepare", placeholders=n, deprecate_eof=depeof,
+                                problem="the packet after the prepare response is not the PING's OK with sequence id 1 (the client is out of step)",
+                                announced=i, packets=len(pk), next=[(q, p[:6].hex()) for q, p in rest[:3]])
+            finally:
+                env.close()
+    return None
+
+
 def run(ctx: core.Ctx):
     rng = ctx.rng
     pr = core.check_proofs(ctx, "Props/C03", headers=[HEADER])
@@ -87,6 +133,9 @@ def run(ctx: core.Ctx):
                            packets=[repr(a) for _, a in pk][:30], events=d.events[:60])
     if pdecode and witness is None:
         witness = dict(kind="undecodable-packet", **pdecode[0])
+    bp = big_prepare_probe(ctx)
+    if bp and witness is None:
+        witness = bp
     if witness is not None:
         core.report_violation(ctx, "a command's response is not the one the protocol prescribes", witness)
     if (not pr["ok"] or disagreements) and not ctx.violations:
